@@ -20,12 +20,15 @@ ASSUMPTIONS = ["operands' dimensions come from one common dimension set (same le
                "x**y: only congruence of the uninterpreted pow(base, exponent) is used"]
 OUTSIDE = ["more than 4 dimensions", "dimension lengths above 3", "operands with equal letters but different items",
            "IEEE rounding, inf, integer dtypes"]
+VARIANTS = 'second dimension set (same letters and lengths, other items) for add / mul / div / minimum; where= / out= arithmetic; three memory layouts'
 BOUNDS = {
     "quick": dict(universe="abc", lengths=[1, 2], operand_dims="every ordered subset of the universe incl. empty (16 x 16 pairs)",
                   operators="add sub mul div pow minimum maximum; x.k and k.x for + - * /; x**k; neg abs __abs__ sign"),
     "thorough": dict(universe="abcd", lengths="patterns (2,2,2,2) (1,2,3,2) (2,2,3,3)", operand_dims="every ordered subset (65 x 65 pairs)",
                      operators="as quick"),
 }
+for _t in BOUNDS.values():
+    _t["variants_beyond_the_base_enumeration"] = VARIANTS
 # dtype shadow: every shadowed configuration is run once more on integer-dtype arrays (differential concrete run)
 DTYPE_SHADOW = lambda cfg: cfg["op"] != "pow"  # int ** negative int raises in numpy itself
 OPTS = {"quick": dict(shadow_every=40), "thorough": dict(shadow_every=200)}
